@@ -299,15 +299,15 @@ func (g *SessGen) finish(st *Step, sql string, params []boundVal, nResultCols in
 			}
 			pvals[i] = p.v.Param(b)
 		}
-		// every third mixed Bind with three or more parameters gets the pattern "first and last alike, something else in
+		// every second mixed Bind with three or more parameters gets the pattern "first and last alike, something else in
 		// between" (what drivers produce that send integers in binary and strings in text); chosen by a counter so that the
 		// PRNG stream is what it was
 		if len(params) >= 3 {
 			g.mixedSeq++
-			if g.mixedSeq%3 == 0 {
+			if g.mixedSeq%2 == 0 {
 				last := len(pf) - 1
 				pf[last] = pf[0]
-				mid := 1 + g.mixedSeq/3%(last-1+1)
+				mid := 1 + g.mixedSeq/2%last
 				if mid >= last {
 					mid = 1
 				}
